@@ -176,7 +176,18 @@ class Events:
         if rr is not None and (path == rr.path or rpath == rr.path) and t['args']:
             l = op_local(t['args'][0])
             shared = l is not None and self._through_guard(fn, l, 'freelist::Freelist')
-            evs.append(dict(ev='R', shared=shared, callee=rr.qual))
+            # pointer provenance (a clone cuts the chain): does the receiver point INTO the guarded shared list?
+            shared_ptr = False
+            if l is not None:
+                from flow import Prov
+                pkey = (fn.path, id(fn) if hasattr(fn, 'inlined') else 0)
+                if not hasattr(self, '_prov'):
+                    self._prov = {}
+                if pkey not in self._prov:
+                    self._prov[pkey] = Prov(fn)
+                pv = self._prov[pkey]
+                shared_ptr = any(adt and last_seg(adt) == 'DBInner' and nme == 'freelist' for adt, nme in pv.prov[l])
+            evs.append(dict(ev='R', shared=shared, shared_ptr=shared_ptr, callee=rr.qual))
         return evs
 
     # ---- statement events (stores through guards)
